@@ -15,7 +15,10 @@ pub fn run(ctx: &Ctx) -> Outcome {
     }
     // FIN emission under loss (found F14): every plan of <= 2 deviations on the core scenarios
     let always = |_: &RunLog, _: &WireEventLite| true;
-    for scn in lib::core().iter() {
+    let mut scns = lib::core();
+    scns.push(lib::early_shutdown());
+    scns.push(lib::mtu_drop_close(700, Some(600), 6_000));
+    for scn in scns.iter() {
         let cfg = ExploreCfg { max_dev: ctx.tier.pick(2, 3), min_k: 2, fates: fates_basic(), eligible: &always, judge: &judge, max_runs: ctx.tier.pick(60_000, 3_000_000) };
         let r = explore(ctx, scn, &cfg);
         let mut p = Part::fe(&format!("duo-fin:{}", scn.name));
